@@ -95,8 +95,9 @@ def main(ctx, cases=None):
     out = []
     if fails:
         sws = tuple(dict.fromkeys(sw for _, sw in ATTRIBUTION))
-        flat = [x for f in fails for x in (f[0], f[1])]
-        pl.run_model(flat, sws)
+        flat = [x for f in fails[:40] for x in (f[0], f[1])]
+        if proofs_ok and not corr_bad:      # counterfactuals are only usable when model and code agree
+            pl.run_model(flat, sws)
         for r, s, d, tol in fails:
             fid, table = None, {}
             for f_id, sw in ATTRIBUTION:
